@@ -80,6 +80,12 @@ func (s *socket) send() {
 
 		var m *protocol.Message
 		if m = c.sendMsg; m != nil {
+			// The caller may still share this message (Clone), for
+			// example to send it on several contexts: put our
+			// request ID on a private copy.
+			m = m.MakeUnique()
+			m.Header = append(m.Header[:0], byte(c.reqID>>24),
+				byte(c.reqID>>16), byte(c.reqID>>8), byte(c.reqID))
 			c.reqMsg = m
 			c.sendMsg = nil
 			s.ctxByID[c.reqID] = c
